@@ -512,6 +512,9 @@ PROPS["C19"] = {
 
 PROPS["C17"] = {
     "package": "c17", "exe": "m_c17",
+    "repo_builds": [{"cmd": ["cargo", "build", "-p", "tuftool", "--offline"], "cwd": "/repo",
+                     "env": {"CARGO_TARGET_DIR": "/verif/.work/tuftool-target", "CARGO_PROFILE_DEV_DEBUG": "0"}}],
+    "env": {"TUFTOOL": "/verif/.work/tuftool-target/debug/tuftool"},
     "rule": "random repositories as for C19 (delegation trees to depth 3 with up to 6 roles, target and role names with spaces, "
             "non-ASCII and sub-directories, both consistent-snapshot settings, pinned lengths / hashes or not), every target "
             "entry with custom data, every timestamp / snapshot / targets document with two unknown top-level members (a number "
@@ -520,7 +523,9 @@ PROPS["C17"] = {
             "keys (ECDSA key files), written, and loaded again. Facts compared before / after: every target of every role "
             "(length, digest, custom data, unknown members), the delegation structure (keys, per role key ids / threshold / "
             "paths / terminating), every delegated document and its signatures, the unknown top-level members of targets, "
-            "snapshot and timestamp, the versions. 150 / 2000 repositories.",
+            "snapshot and timestamp, the versions. The same update (versions and expirations only) is also run through the "
+            "`tuftool update` binary built from /repo on the source written to a directory (every third repository quick, all "
+            "thorough) and its re-loaded output is held against the same expectation. 150 / 2000 repositories.",
     "explanation": "Theorem (Tough/Props/C17.lean, update_preserves): for every repository, every set of new versions and "
                    "every list of added targets the update succeeds and yields the set versions, for every name the added "
                    "target or else exactly the old one, the same delegation structure, and the same unknown members of "
